@@ -70,6 +70,22 @@ theorem isIdent_eq0 (c : Int) (h0 : 0 ≤ c) (h1 : c < 2147483648) :
       natCast_eq_lit, Bool.or_assoc]
   split <;> rfl
 
+/-- the whole int32 range: a negative rune matches no case label and is neither space nor printable (both sides see
+    `toNat = 0`) -/
+theorem isIdent_eqI (c : Int) (h0 : -2147483648 ≤ c) (h1 : c < 2147483648) :
+    Generated.Lex.isIdent isPrintI isSpaceI c = Modfile.isIdent c.toNat := by
+  by_cases hc : 0 ≤ c
+  · exact isIdent_eq0 c hc h1
+  · unfold Generated.Lex.isIdent Modfile.isIdent Modfile.identExcluded
+    simp only [toI32_id h0 h1, Id.run, isPrintI, isSpaceI]
+    have e : c.toNat = 0 := by omega
+    have hne : ∀ k : Int, 0 ≤ k → decide (c = k) = false := by intro k hk; simp; omega
+    rw [e]
+    simp only [hne 32 (by omega), hne 40 (by omega), hne 41 (by omega), hne 91 (by omega), hne 93 (by omega),
+      hne 123 (by omega), hne 125 (by omega), hne 44 (by omega)]
+    simp
+    rfl
+
 theorem isIdent_eq (n : Nat) (h : n < 2147483648) :
     Generated.Lex.isIdent isPrintI isSpaceI (n : Int) = Modfile.isIdent n := by
   have := isIdent_eq0 (n : Int) (by omega) (by omega)
@@ -291,5 +307,53 @@ theorem endToken_eq (k : Int) (kd : TokKind) (i : Input) :
       simp only [if_true, h2]
       rw [sliceTo_natCast (by simp), h3]
       simp [embK, embTokK]
+
+/-! ### states whose `tokenStart` is arbitrary
+
+  Before `startToken` the field `tokenStart` is dead (Go's `newInput` leaves it nil, the model's `tokRev = []` stands for
+  the whole remaining input): `embKT k ts i` is `embK k i` with `tokenStart := ts`.  The methods that run before
+  `startToken` (eof, peekRune, peekPrefix, readRune) carry an arbitrary `ts` along; `startToken` overwrites it. -/
+
+def embKT (k : Int) (ts : Bytes) (i : Input) : Generated.Lex.input := { (embK k i) with tokenStart := ts }
+
+theorem embK_eq_embKT (k : Int) (i : Input) : embK k i = embKT k (i.tokRev.reverse ++ i.remaining) i := rfl
+
+theorem eof_eqT (k : Int) (ts : Bytes) (i : Input) : Generated.Lex.input_eof (embKT k ts i) = i.eof := eof_eq k i
+
+theorem peekRune_eqT (k : Int) (ts : Bytes) (i : Input) :
+    Generated.Lex.input_peekRune (embKT k ts i) = (i.peekRune : Int) := peekRune_eq k i
+
+theorem peekPrefix_eqT (k : Int) (ts : Bytes) (i : Input) (p : Bytes) (fuel : Nat) (hf : p.length + 1 ≤ fuel) :
+    Generated.Lex.input_peekPrefix fuel (embKT k ts i) p = .ok (i.peekPrefix p) :=
+  peekPrefix_gen (embKT k ts i) p fuel hf
+
+/-- readRune does not look at `tokenStart` and does not change it -/
+theorem readRune_frame (gi : Generated.Lex.input) (ts : Bytes) :
+    Generated.Lex.input_readRune { gi with tokenStart := ts } =
+      match Generated.Lex.input_readRune gi with
+      | .ok (r, g) => .ok (r, { g with tokenStart := ts })
+      | .error e => .error e := by
+  unfold Generated.Lex.input_readRune
+  simp only []
+  split
+  · rfl
+  · cases sliceFrom gi.remaining (decodeRune gi.remaining).2 with
+    | error e => rfl
+    | ok t => simp only [bind_ok]; split <;> rfl
+
+theorem readRune_eofT (k : Int) (ts : Bytes) (i : Input) (h : i.remaining = []) :
+    Generated.Lex.input_readRune (embKT k ts i) = .error .panic := by
+  unfold embKT; rw [readRune_frame, readRune_eof k i h]
+
+theorem readRune_eqT (k : Int) (ts : Bytes) (i : Input) (h : i.remaining ≠ []) (hw : WF i) :
+    ∃ r i', readRune i = .ok (r, i') ∧ Generated.Lex.input_readRune (embKT k ts i) = .ok ((r : Int), embKT k ts i') ∧
+      WF i' ∧ i'.remaining.length < i.remaining.length ∧ i'.token = i.token ∧ r = i.peekRune := by
+  obtain ⟨r, i', hM, hG, rest⟩ := readRune_eq k i h hw
+  refine ⟨r, i', hM, ?_, rest⟩
+  unfold embKT; rw [readRune_frame, hG]
+
+theorem startToken_eqT (k : Int) (ts : Bytes) (i : Input) :
+    Generated.Lex.input_startToken (embKT k ts i) = ((), embK k (startToken i)) := by
+  simp [Generated.Lex.input_startToken, embKT, embK, startToken, Id.run, embTokK, pure]
 
 end ModVerif.TieFnLex
